@@ -798,7 +798,13 @@ def _resolve(selector, env, cnt):
             # If fn is a method, we add a capture for "self" that must
             # match the instance.
             real_fn = _dig(fn.__func__)
-            selfname = inspect.getfullargspec(real_fn).args[0]
+            argnames = inspect.getfullargspec(real_fn).args
+            if not argnames:
+                raise SelectorError(
+                    f"Cannot select method {fn}: its receiver is not"
+                    " a named parameter"
+                )
+            selfname = argnames[0]
             el = el.clone(name=real_fn)
             # The receiver must be that very object: match it by identity
             # (it may be unhashable, or equal to other instances)
